@@ -148,6 +148,35 @@ Theorem C13_by_index_restricts :
 Proof. exact query_by_index_restricts. Qed.
 Print Assumptions C13_by_index_restricts.
 
+(* Only configured accounts validate: whoever is reported, by any accessor after any history from
+   the empty service, is in the admitted set of a refresh of that history -- the set C13_full_match
+   characterises -- and that set is the whole current account store. *)
+Theorem C13_reported_was_admitted :
+  forall parse (cfg : config) (ops : list op) (sync : bool) (e : N) (idx : option (list N)) (i pk : N),
+    In (i, pk) (query cfg (run_state parse cfg init ops) sync e idx) ->
+    exists offered vo, In (Refresh offered vo) ops /\ In pk (admitted parse cfg offered) /\
+                       st_accounts (run_state parse cfg init ops) = admitted parse cfg offered.
+Proof. exact reported_was_admitted. Qed.
+Print Assumptions C13_reported_was_admitted.
+
+(* The outputs the correspondence check compares ([run_from], one per operation) are those of the
+   states the theorems speak about ([run_state]). *)
+Theorem C13_outputs_follow_states :
+  forall parse (cfg : config) (ops : list op) (s : state),
+    (forall sync e idx,
+       run_from parse cfg s (ops ++ [Query sync e idx]) =
+       run_from parse cfg s ops ++ [OQuery (query cfg (run_state parse cfg s ops) sync e idx)])
+    /\ (forall offered vo,
+       run_from parse cfg s (ops ++ [Refresh offered vo]) =
+       run_from parse cfg s ops ++
+       [OProbe (sort_by (fun x => x) (st_accounts (run_state parse cfg s (ops ++ [Refresh offered vo]))))]).
+Proof.
+  intros parse cfg ops s. split; intros.
+  - apply run_from_query.
+  - apply run_from_refresh.
+Qed.
+Print Assumptions C13_outputs_follow_states.
+
 (* ------------------------------------------------------------------------------------------- *)
 (* Retention.  One refresh: when the remote signer offers nothing admissible and the node fails or
    answers nothing for the known accounts, the dirk manager's whole state is unchanged (hence so
